@@ -69,8 +69,21 @@ def gen_path(rng):
     for i in range(1, k + 1):
         if rng.random() < 0.5:
             pk = rng.choice(POL)
-            per[pk][f'f R0-R{i}'] = _val(rng, pk)
+            # after auto-design the egress degree of R0 towards Ri is named by the inserted booster
+            per[pk][f'Edfa_booster_R0_to_f R0-R{i}'] = _val(rng, pk)
     ends = rng.sample(range(0, k + 1), 2)
+    rtype = rng.choice([None, 'detailed_impairments', 'multi_profile', 'multi_profile'])
+    pdi = []
+    if rtype == 'multi_profile':
+        # user selection of a non-default impairment profile on some internal connections of R0
+        for i in range(1, k + 1):
+            for j in range(1, k + 1):
+                if i != j and rng.random() < 0.5:
+                    pdi.append([f'Edfa_preamp_R0_from_f R{i}-R0', f'Edfa_booster_R0_to_f R0-R{j}', rng.choice([0, 3])])
+            if rng.random() < 0.4:
+                pdi.append(['T0', f'Edfa_booster_R0_to_f R0-R{i}', rng.choice([1, 4])])
+            if rng.random() < 0.4:
+                pdi.append([f'Edfa_preamp_R0_from_f R{i}-R0', 'T0', rng.choice([2, 5])])
     nch = rng.choice([1, 2, 4, 9])
     bauds = [rng.choice([32e9, 64e9, 42e9]) for _ in range(nch)]
     slots = [math.ceil(b / 12.5e9 + rng.choice([0, 1, 2])) * 12.5e9 for b in bauds]
@@ -81,7 +94,7 @@ def gen_path(rng):
         freqs.append(f)
         f += sl / 2
     return {'kind': 'path', 'k': k, 'node': node, 'per': per, 'src': f'T{ends[0]}', 'dst': f'T{ends[1]}',
-            'detailed': rng.random() < 0.5, 'freq': freqs, 'baud': bauds, 'slot': slots,
+            'detailed': rtype == 'detailed_impairments', 'rtype': rtype, 'pdi': pdi, 'freq': freqs, 'baud': bauds, 'slot': slots,
             'offset': [rng.choice([0.0, 0.0, 1.5, -2.0, 3.0]) for _ in range(nch)],
             'tx_dbm': [rng.choice([0.0, -5.0, 3.0, -25.0, -40.0]) for _ in range(nch)],
             'span_km': rng.choice([20.0, 60.0, 90.0])}
@@ -182,6 +195,28 @@ def run(case, drv):
             'path': run_path}[case['kind']](case, drv)
 
 
+_EQ_MULTI = []
+
+
+def _eqpt_multi():
+    """stock library + ROADM type 'multi_profile': two profiles per path type with different max loss
+    (ids 0/3 express 16.5/6 dB, 1/4 add 11.5/8 dB, 2/5 drop 11.5/9 dB); the first of each type is the default"""
+    if not _EQ_MULTI:
+        from gnpy.tools.json_io import _equipment_from_json, DEFAULT_EXTRA_CONFIG
+        doc = nets.eqpt_json()
+        base = copy.deepcopy([x for x in doc['Roadm'] if x.get('type_variety') == 'detailed_impairments'][0])
+        base['type_variety'] = 'multi_profile'
+        prof = base['roadm-path-impairments']
+        for new_id, key, ml in ((3, 'roadm-express-path', 6.0), (4, 'roadm-add-path', 8.0), (5, 'roadm-drop-path', 9.0)):
+            src = copy.deepcopy(next(x for x in prof if key in x))
+            src['roadm-path-impairments-id'] = new_id
+            src[key][0]['roadm-maxloss'] = ml
+            prof.append(src)
+        doc['Roadm'].append(base)
+        _EQ_MULTI.append(_equipment_from_json(doc, DEFAULT_EXTRA_CONFIG))
+    return copy.deepcopy(_EQ_MULTI[0])
+
+
 def run_path(case, drv):
     from gnpy.core.elements import Roadm, Transceiver
     from gnpy.core.info import Carrier
@@ -195,12 +230,16 @@ def run_path(case, drv):
     for p in POL:
         if case['per'][p]:
             params[PKEY[p]] = dict(case['per'][p])
+    rtype = case.get('rtype', 'detailed_impairments' if case['detailed'] else None)
+    if case.get('pdi'):
+        params['per_degree_impairments'] = [{'from_degree': a, 'to_degree': b, 'impairment_id': i}
+                                            for a, b, i in case['pdi']]
     topo = nets.star(case['k'], roadm_params=params, span_km=case['span_km'])
-    if case['detailed']:
+    if rtype:
         for e in topo['elements']:
             if e['type'] == 'Roadm':
-                e['type_variety'] = 'detailed_impairments'
-    eq = nets.eqpt()
+                e['type_variety'] = rtype
+    eq = _eqpt_multi() if rtype == 'multi_profile' else nets.eqpt()
     net = network_from_json(topo, eq)
     net, _, _ = designed_network(eq, net)
     rp = {'request_id': 'r', 'trx_type': '', 'trx_mode': '', 'source': case['src'], 'destination': case['dst'],
@@ -230,12 +269,17 @@ def run_path(case, drv):
     roadms = [(i, el) for i, el in enumerate(path) if isinstance(el, Roadm)]
     res.cmp_exact('request.propagate: one ROADM call per ROADM of the path', len(log), len(roadms))
     ML = {'add': 11.5, 'drop': 11.5, 'express': 16.5}
+    PROFILE = {0: 16.5, 1: 11.5, 2: 11.5, 3: 6.0, 4: 8.0, 5: 9.0}
+    chosen = {(a, b): i for a, b, i in case.get('pdi', [])}
     types = Counter_()
     for (i, el), (r, degree, from_degree, pin, pout, baud, slot, off, freq) in zip(roadms, log):
         nxt, prv = path[i + 1], path[i - 1]
         ptype = 'add' if isinstance(prv, Transceiver) else ('drop' if isinstance(nxt, Transceiver) else 'express')
         types[ptype] += 1
-        ml = ML[ptype] if case['detailed'] else 0.0
+        ml = ML[ptype] if rtype else 0.0
+        if r.uid == 'R0' and (prv.uid, nxt.uid) in chosen:
+            ml = PROFILE[chosen[(prv.uid, nxt.uid)]]     # the profile the user selected for this internal connection
+            types['user_profile'] += 1
         # correspondence on the whole crossing, with the degree the PATH dictates (next element's uid)
         if r.uid == 'R0':
             node, per = case['node'], case['per']
@@ -269,7 +313,8 @@ def run_path(case, drv):
             if pout[c] > pin[c] * (1 + 1e-9):
                 res.fail(f'amplifies on a path: {r.uid} channel {c}')
     res.nontrivial = len(log) >= 2
-    res.stats.update({'path': 1, 'path_detailed_impairments': int(case['detailed'])})
+    res.stats.update({'path': 1, 'path_detailed_impairments': int(case['detailed']), f'path_roadm_type_{rtype}': 1,
+                      'path_R0_degree_override': int(any(case['per'][p] for p in POL))})
     res.stats.update({f'path_crossing_{k}': v for k, v in types.items()})
     return res
 
